@@ -4,7 +4,7 @@ import z3
 from .. import snapshot
 from ..cir import build, solve, symex, stubs, ir
 from ..gen import harness, arith
-from . import C03, C04, C05, C16, C14, C02, C12, C15, C07
+from . import C03, C04, C05, C16, C14, C02, C12, C15, C07, C13, C24, C06, C19, C18
 
 LEVEL = 'model_checking'
 
@@ -87,26 +87,27 @@ def run(rep, tier, only=None):
             else:
                 rep.obligation(d['name'], d['status'], d['s'], True, d.get('detail'))
     # --- the UB obligations of the other kernels are discharged by running those checks' own workers in UB-only mode
-    sub = [('C16', C16), ('C05', C05), ('C12', C12), ('C15', C15), ('C07', C07)] + ([('C04', C04), ('C14', C14), ('C02', C02)] if tier == 'thorough' else [])
+    sub = [('C16', C16), ('C05', C05), ('C12', C12), ('C15', C15), ('C07', C07), ('C13', C13), ('C24', C24), ('C06', C06), ('C19', C19)] + (
+        [('C04', C04), ('C14', C14), ('C02', C02), ('C18', C18)] if tier == 'thorough' else [])
     from .. import verdict
     for pid, mod in sub:
         sub_rep = verdict.Report('C36', tier, LEVEL, rep.seed)
         sub_rep.known, sub_rep.fixed = verdict.load_known_findings(pid)
         sub_rep.quiet = True
         try:
-            mod.run(sub_rep, 'quick', only={'C12': 'A1', 'C07': 'pow2'}.get(pid))
+            mod.run(sub_rep, 'quick', only={'C12': 'A1', 'C07': 'pow2', 'C13': 'tailmatch', 'C24': 'match', 'C06': 'parse', 'C19': 'intint', 'C18': 'cint'}.get(pid))
         except Exception as e:
             rep.harness_error('sub-run of %s failed: %r' % (pid, e))
             continue
         for o in sub_rep.obls:
             n = o['name']
-            if 'no UB' in n or 'inside the axis' in n or 'out-of-buffer' in n or 'outside' in n:
+            if 'no UB' in n or 'inside the axis' in n or 'out-of-buffer' in n or 'outside' in n or 'stays inside' in n:
                 st = o['status']
                 if st == 'inconclusive' and sub_rep.violations and pid in ('C16', 'C12', 'C15'):
                     st = 'refuted'      # the same defect was confirmed by a replayed counterexample of a sibling obligation
                 rep.obligation('[%s] %s' % (pid, n), st, o['seconds'], o['mandatory'], o['detail'])
         for what, rp in sub_rep.violations:
-            if pid in ('C16', 'C12', 'C15') or 'no UB' in what or 'inside the axis' in what or 'out-of-buffer' in what or 'UBSan' in what or 'signal' in what:
+            if pid in ('C16', 'C12', 'C15') or 'no UB' in what or 'memcmp stays inside' in what or 'no UB' in what or 'inside the axis' in what or 'out-of-buffer' in what or 'UBSan' in what or 'signal' in what:
                 rep.violation('[%s] %s' % (pid, what[:600]), rp)
         for key, what in sub_rep.known_hits:
             # a known finding of the sub-check counts here only if it is listed for C36 as well (UB-related ones are)
